@@ -29,11 +29,24 @@
    (iv)  udp_nonce_inj / udp_nonce_distinct: the AES-kind nonce is bytes 4..16 of sid ‖ pid; two packet ids < 2^64
          of one session give different nonces; client_aes_packet_nonce / server_aes_packet_nonce: that IS the
          nonce under which ssu_encode seals.
-   (v)   session level (Rw = PacketWindowList.R, the filter invariant; it holds initially and is preserved):
-         client_dgram_decode_spec (verdict = PacketWindow.spec_accept on the set of accepted ids),
-         refused_packet_keeps_session_client (refused id => Ok (st, None): no item, state unchanged),
-         refused_packet_invisible_client (the rest of the run is as if the datagram had not arrived),
-         client_packet_id_at_most_once (NoDup of the delivered ids, every input sequence, any order);
+   (v)   session level (Rw = PacketWindowList.R, the filter invariant; it holds initially and is preserved).
+         Client (DatagramPacketCodec::decode; ONE window PER SERVER SESSION, the MAX_SERVER_SESSIONS = 4 newest are held,
+         repair 5185ac1; a datagram naming another client session id is dropped first, repair 642ebdf):
+         (v-a, P-independent) filter_of / filters_validate_at: held (the first entry of id A carries window f, n newer entries
+         behind it), windows_ok, client_validate_new, client_validate_keys (the retained ids are a FIFO of the ids seen),
+         windows_session_exact;
+         client_foreign_session_datagram_dropped / foreign_session_datagram_invisible_client (=> Ok (st, None));
+         client_dgram_decode_spec (verdict = PacketWindow.spec_accept on the ids accepted IN THAT SERVER SESSION),
+         refused_packet_keeps_session_client (refused id => no item; state identical when the server session's window is held,
+         otherwise -- only with id >= 2^64-1 -- filter_of alone has run), refused_packet_invisible_client,
+         client_new_server_session_accepted (the first packet of a server session not held is accepted from ANY state),
+         client_trace (ghost observation: server session id, packet id, opened-a-window, delivered),
+         client_trace_new_is_fifo, client_packet_id_at_most_once (from ANY state, every input sequence: from the datagram that
+         opens A's window and while fewer than 4 further windows are opened, the verdicts on A's packets are EXACTLY those of
+         the specification window on A's ids alone; delivered ids of A NoDup);
+         client_dgram_decode_v0 (the client before both repairs) with the ToyUdp witnesses
+         single_window_drops_new_session_witness, foreign_session_datagram_witness; client_window_eviction_witness (the
+         stated limit: a 5th server session displaces the first one's window);
          server_assoc_step_spec, refused_packet_keeps_session_server (=> (st, [], true)),
          unresolved_packet_keeps_session, refused_packet_invisible_server, unresolved_packet_invisible_server,
          server_packet_id_at_most_once, server_packet_id_no_wrap;
@@ -135,6 +148,310 @@ Proof.
   - destruct (validate_timestamp now (now + 31)) eqn:E; [|reflexivity]. apply validate_timestamp_window in E. lia.
   - intros H. apply validate_timestamp_window. lia.
   - intros H. destruct (validate_timestamp now (now - 31)) eqn:E; [|reflexivity]. apply validate_timestamp_window in E. lia.
+Qed.
+
+(* ---------------------------------------------------------------------------------------------- *)
+(* (v-a) the client's vector of replay windows (P-independent): filter_of / filters_validate_at      *)
+(* ---------------------------------------------------------------------------------------------- *)
+Definition fkeys (fs : list (N * pw)) : list N := map fst fs.
+(* every retained window is a reachable window (PacketWindowList.R: it represents a list of accepted ids) *)
+Definition windows_ok (fs : list (N * pw)) : Prop := Forall (fun e => exists acc, R (snd e) acc) fs.
+
+Lemma filters_find_none fs A : filters_find fs A = None <-> ~ In A (fkeys fs).
+Proof.
+  induction fs as [|[k g] t IH]; cbn [filters_find fkeys map In fst]; [tauto|].
+  destruct (N.eqb_spec k A) as [->|Hne].
+  - split; [discriminate|]. intros H. exfalso. apply H. left. reflexivity.
+  - rewrite IH. unfold fkeys. tauto.
+Qed.
+Lemma filters_find_some fs A : In A (fkeys fs) -> exists f, filters_find fs A = Some f.
+Proof.
+  intros Hin. destruct (filters_find fs A) as [f|] eqn:E; [eauto|]. apply filters_find_none in E. contradiction.
+Qed.
+Lemma existsb_keys fs A : existsb (N.eqb A) (fkeys fs) = true <-> In A (fkeys fs).
+Proof.
+  rewrite existsb_exists. split.
+  - intros (x & Hx & E). apply N.eqb_eq in E. subst x. exact Hx.
+  - intros H. exists A. split; [exact H|apply N.eqb_refl].
+Qed.
+
+Lemma filter_of_retained fs A : In A (fkeys fs) -> filter_of fs A = fs.
+Proof. intros H. unfold filter_of. destruct (filters_find_some fs A H) as (f & ->). reflexivity. Qed.
+Lemma filter_of_new fs A : ~ In A (fkeys fs) ->
+  filter_of fs A = (if N.of_nat (length fs) =? MAX_SERVER_SESSIONS then tl fs else fs) ++ [(A, pw_new)].
+Proof. intros H. unfold filter_of. apply filters_find_none in H. rewrite H. reflexivity. Qed.
+
+Lemma validate_at_length : forall fs A q, length (fst (filters_validate_at fs A q)) = length fs.
+Proof.
+  induction fs as [|[k g] t IH]; intros A q; cbn [filters_validate_at]; [reflexivity|].
+  destruct (k =? A).
+  - destruct (pw_validate g q U64_MAX). reflexivity.
+  - specialize (IH A q). destruct (filters_validate_at t A q). cbn [fst length] in *. congruence.
+Qed.
+Lemma validate_at_keys : forall fs A q, fkeys (fst (filters_validate_at fs A q)) = fkeys fs.
+Proof.
+  induction fs as [|[k g] t IH]; intros A q; cbn [filters_validate_at]; [reflexivity|].
+  destruct (k =? A).
+  - destruct (pw_validate g q U64_MAX). reflexivity.
+  - specialize (IH A q). destruct (filters_validate_at t A q). cbn [fst fkeys map] in *. unfold fkeys in IH. congruence.
+Qed.
+
+(* the window of A is held: the first entry of id A carries f and has n newer entries behind it *)
+Definition held (A : N) (f : pw) (n : nat) (fs : list (N * pw)) : Prop :=
+  exists older newer, fs = older ++ (A, f) :: newer /\ ~ In A (fkeys older) /\ length newer = n.
+
+Lemma held_in A f n fs : held A f n fs -> In A (fkeys fs).
+Proof. intros (o & w & -> & _ & _). unfold fkeys. rewrite map_app. apply in_or_app. right. left. reflexivity. Qed.
+
+Lemma validate_at_split : forall older A f newer q, ~ In A (fkeys older) ->
+  filters_validate_at (older ++ (A, f) :: newer) A q
+  = (older ++ (A, fst (pw_validate f q U64_MAX)) :: newer, snd (pw_validate f q U64_MAX)).
+Proof.
+  induction older as [|[k g] t IH]; intros A f newer q Hni; cbn [app filters_validate_at].
+  - rewrite N.eqb_refl. destruct (pw_validate f q U64_MAX). reflexivity.
+  - destruct (N.eqb_spec k A) as [->|Hne]; [exfalso; apply Hni; left; reflexivity|].
+    rewrite IH by (intros H; apply Hni; right; exact H). reflexivity.
+Qed.
+
+Lemma held_validate_same A f n fs q : held A f n fs ->
+  snd (filters_validate_at fs A q) = snd (pw_validate f q U64_MAX) /\
+  held A (fst (pw_validate f q U64_MAX)) n (fst (filters_validate_at fs A q)).
+Proof.
+  intros (o & w & -> & Hni & Hn). rewrite validate_at_split by exact Hni. cbn [fst snd]. split; [reflexivity|].
+  exists o, w. auto.
+Qed.
+
+Lemma held_validate_other A f n X q : X <> A -> forall fs, held A f n fs -> held A f n (fst (filters_validate_at fs X q)).
+Proof.
+  intros Hne fs (o & w & -> & Hni & Hn). revert Hni. induction o as [|[k g] t IH]; intros Hni; cbn [app filters_validate_at].
+  - destruct (N.eqb_spec A X) as [E|_]; [congruence|].
+    pose proof (validate_at_length w X q) as Hl. destruct (filters_validate_at w X q) as [w' b]. cbn [fst] in *.
+    exists [], w'. repeat split; [exact Hni|congruence].
+  - destruct (N.eqb_spec k X) as [->|Hk].
+    + destruct (pw_validate g q U64_MAX) as [g' b]. cbn [fst]. exists ((X, g') :: t), w. repeat split; assumption.
+    + assert (Hni' : ~ In A (fkeys t)) by (intros H; apply Hni; right; exact H).
+      specialize (IH Hni'). destruct (filters_validate_at (t ++ (A, f) :: w) X q) as [r b]. cbn [fst] in *.
+      destruct IH as (o' & w' & -> & Hni2 & Hn2). exists ((k, g) :: o'), w'. repeat split; [|exact Hn2].
+      intros [E|H]; [apply Hni; left; exact E|contradiction].
+Qed.
+
+Lemma held_filter_of_new A f n fs X : ~ In X (fkeys fs) -> held A f n fs -> (n < 3)%nat ->
+  held A f (S n) (filter_of fs X).
+Proof.
+  intros HX (o & w & -> & Hni & Hn) Hlt. rewrite filter_of_new by exact HX.
+  destruct (N.eqb_spec (N.of_nat (length (o ++ (A, f) :: w))) MAX_SERVER_SESSIONS) as [E|_].
+  - destruct o as [|e o'].
+    + exfalso. cbn [app length] in E. unfold MAX_SERVER_SESSIONS in E. lia.
+    + cbn [app tl]. exists o', (w ++ [(X, pw_new)]). repeat split.
+      * rewrite <- app_assoc. reflexivity.
+      * intros H. apply Hni. right. exact H.
+      * rewrite app_length. cbn [length]. lia.
+  - exists o, (w ++ [(X, pw_new)]). repeat split.
+    + rewrite <- app_assoc. reflexivity.
+    + exact Hni.
+    + rewrite app_length. cbn [length]. lia.
+Qed.
+
+(* a new server session: its window is appended (the oldest evicted when four are held) and judged from scratch *)
+Lemma client_validate_new fs A q : ~ In A (fkeys fs) ->
+  client_validate fs A q
+  = ((if N.of_nat (length fs) =? MAX_SERVER_SESSIONS then tl fs else fs) ++ [(A, fst (pw_validate pw_new q U64_MAX))],
+     snd (pw_validate pw_new q U64_MAX)).
+Proof.
+  intros H. unfold client_validate. rewrite filter_of_new by exact H.
+  apply validate_at_split. intros Hin. apply H. unfold fkeys in *.
+  destruct (N.of_nat (length fs) =? MAX_SERVER_SESSIONS); [|exact Hin].
+  destruct fs as [|e t]; [exact Hin|]. right. exact Hin.
+Qed.
+Lemma held_after_new fs A q : ~ In A (fkeys fs) ->
+  held A (fst (pw_validate pw_new q U64_MAX)) 0 (fst (client_validate fs A q)).
+Proof.
+  intros H. rewrite client_validate_new by exact H. cbn [fst].
+  exists (if N.of_nat (length fs) =? MAX_SERVER_SESSIONS then tl fs else fs), []. repeat split.
+  intros Hin. apply H. unfold fkeys in *.
+  destruct (N.of_nat (length fs) =? MAX_SERVER_SESSIONS); [|exact Hin].
+  destruct fs as [|e t]; [exact Hin|]. right. exact Hin.
+Qed.
+
+Lemma pw_new_verdict q : snd (pw_validate pw_new q U64_MAX) = (q <? U64_MAX) /\
+  R (fst (pw_validate pw_new q U64_MAX)) (if q <? U64_MAX then [q] else []).
+Proof.
+  destruct (pw_validate pw_new q U64_MAX) as [f b] eqn:E.
+  destruct (pw_validate_refines _ _ _ _ _ _ R_init E) as (Hb & HR & _). cbn [fst snd].
+  assert (Hv : b = (q <? U64_MAX)).
+  { rewrite Hb. unfold spec_accept. cbn [existsb forallb negb]. rewrite !andb_true_r. reflexivity. }
+  split; [exact Hv|]. rewrite <- Hv. exact HR.
+Qed.
+
+(* the invariant "every window is reachable" travels *)
+Lemma windows_ok_filter_of fs A : windows_ok fs -> windows_ok (filter_of fs A).
+Proof.
+  intros H. unfold filter_of. destruct (filters_find fs A); [exact H|].
+  apply Forall_app. split.
+  - destruct (N.of_nat (length fs) =? MAX_SERVER_SESSIONS); [|exact H]. destruct fs; [exact H|]. inversion H; assumption.
+  - constructor; [|constructor]. exists []. exact R_init.
+Qed.
+Lemma windows_ok_validate_at : forall fs A q, windows_ok fs -> windows_ok (fst (filters_validate_at fs A q)).
+Proof.
+  induction fs as [|[k g] t IH]; intros A q H; cbn [filters_validate_at]; [exact H|].
+  inversion H as [|? ? (acc & Hg) Ht]; subst. destruct (k =? A).
+  - destruct (pw_validate g q U64_MAX) as [g' b] eqn:E. cbn [fst].
+    destruct (pw_validate_refines _ _ _ _ _ _ Hg E) as (_ & HR & _). constructor; [eexists; exact HR|exact Ht].
+  - specialize (IH A q Ht). destruct (filters_validate_at t A q). cbn [fst] in *. constructor; [eexists; exact Hg|exact IH].
+Qed.
+Lemma windows_ok_client_validate fs A q : windows_ok fs -> windows_ok (fst (client_validate fs A q)).
+Proof. intros H. apply windows_ok_validate_at, windows_ok_filter_of, H. Qed.
+(* a refusal leaves every window as it was *)
+Lemma validate_at_refused_same : forall fs A q, windows_ok fs -> snd (filters_validate_at fs A q) = false ->
+  fst (filters_validate_at fs A q) = fs.
+Proof.
+  induction fs as [|[k g] t IH]; intros A q H; cbn [filters_validate_at]; [reflexivity|].
+  inversion H as [|? ? (acc & Hg) Ht]; subst. destruct (k =? A).
+  - destruct (pw_validate g q U64_MAX) as [g' b] eqn:E. cbn [fst snd]. intros ->.
+    destruct (pw_validate_refines _ _ _ _ _ _ Hg E) as (_ & _ & Hs). rewrite (Hs eq_refl). reflexivity.
+  - specialize (IH A q Ht). destruct (filters_validate_at t A q). cbn [fst snd] in *. intros Hb. rewrite (IH Hb). reflexivity.
+Qed.
+Lemma client_validate_refused fs A q : windows_ok fs -> snd (client_validate fs A q) = false ->
+  fst (client_validate fs A q) = filter_of fs A.
+Proof. intros H. apply validate_at_refused_same, windows_ok_filter_of, H. Qed.
+Lemma refused_unretained_over_limit fs A q : ~ In A (fkeys fs) -> snd (client_validate fs A q) = false -> U64_MAX <= q.
+Proof.
+  intros H. rewrite client_validate_new by exact H. cbn [snd]. rewrite (proj1 (pw_new_verdict q)).
+  intros Hlt. apply N.ltb_ge. exact Hlt.
+Qed.
+
+(* the retained server session ids follow a FIFO of MAX_SERVER_SESSIONS entries: a function of the ids seen alone *)
+Definition fifo_push (l : list N) (x : N) : list N :=
+  if existsb (N.eqb x) l then l else (if N.of_nat (length l) =? MAX_SERVER_SESSIONS then tl l else l) ++ [x].
+Lemma client_validate_keys fs A q : fkeys (fst (client_validate fs A q)) = fifo_push (fkeys fs) A.
+Proof.
+  unfold client_validate. rewrite validate_at_keys. unfold fifo_push.
+  destruct (existsb (N.eqb A) (fkeys fs)) eqn:E.
+  - apply existsb_keys in E. rewrite filter_of_retained by exact E. reflexivity.
+  - assert (Hni : ~ In A (fkeys fs)) by (intros H; apply existsb_keys in H; congruence).
+    rewrite filter_of_new by exact Hni. unfold fkeys. rewrite map_app, map_length. cbn [map fst].
+    destruct (N.of_nat (length fs) =? MAX_SERVER_SESSIONS); [|reflexivity]. destruct fs; reflexivity.
+Qed.
+
+(* ---- traces: what happens to the authenticated datagrams of this client session, in order ---- *)
+Record cevent := { ev_ssid : N; ev_pid : N; ev_new : bool; ev_ok : bool }.
+Definition ev_of (A : N) (e : cevent) : bool := ev_ssid e =? A.
+
+Fixpoint windows_trace (fs : list (N * pw)) (ids : list (N * N)) : list cevent :=
+  match ids with
+  | [] => []
+  | (ssid, pid) :: t =>
+    {| ev_ssid := ssid; ev_pid := pid; ev_new := negb (existsb (N.eqb ssid) (fkeys fs));
+       ev_ok := snd (client_validate fs ssid pid) |} :: windows_trace (fst (client_validate fs ssid pid)) t
+  end.
+Fixpoint fifo_news (l : list N) (xs : list N) : list bool :=
+  match xs with [] => [] | x :: t => negb (existsb (N.eqb x) l) :: fifo_news (fifo_push l x) t end.
+Lemma windows_trace_new_is_fifo : forall ids fs,
+  map ev_new (windows_trace fs ids) = fifo_news (fkeys fs) (map fst ids) /\
+  map ev_ssid (windows_trace fs ids) = map fst ids /\ map ev_pid (windows_trace fs ids) = map snd ids.
+Proof.
+  induction ids as [|[A q] t IH]; intros fs; cbn [windows_trace map fifo_news fst snd ev_new ev_ssid ev_pid]; [auto|].
+  destruct (IH (fst (client_validate fs A q))) as (H1 & H2 & H3). rewrite H1, H2, H3, client_validate_keys. auto.
+Qed.
+
+Lemma windows_trace_app_inv : forall t1 t2 fs ids, windows_trace fs ids = t1 ++ t2 ->
+  exists ids1 ids2 fs', ids = ids1 ++ ids2 /\ windows_trace fs ids1 = t1 /\ windows_trace fs' ids2 = t2.
+Proof.
+  induction t1 as [|e t1 IH]; intros t2 fs ids H.
+  - exists [], ids, fs. auto.
+  - destruct ids as [|[A q] ids]; [discriminate|]. cbn [windows_trace app] in H. injection H as He Ht.
+    destruct (IH _ _ _ Ht) as (i1 & i2 & fs' & -> & H1 & H2).
+    exists ((A, q) :: i1), i2, fs'. cbn [windows_trace app]. rewrite H1, He. auto.
+Qed.
+
+Lemma snd_spec_run_cons acc id t limit :
+  snd (spec_run acc (id :: t) limit)
+  = spec_accept acc id limit :: snd (spec_run (if spec_accept acc id limit then id :: acc else acc) t limit).
+Proof. cbn [spec_run]. destruct (spec_run _ t limit). reflexivity. Qed.
+
+Lemma filter_ev_of_cons A e t :
+  filter (ev_of A) (e :: t) = if ev_ssid e =? A then e :: filter (ev_of A) t else filter (ev_of A) t.
+Proof. reflexivity. Qed.
+
+(* while the window of A is held, the verdicts on A's packets are those of ONE window on A's ids alone *)
+Lemma held_session_run A : forall ids fs f n acc,
+  held A f n fs -> R f acc -> (n + length (filter ev_new (windows_trace fs ids)) < 4)%nat ->
+  let mine := filter (ev_of A) (windows_trace fs ids) in
+  map ev_ok mine = snd (spec_run acc (map ev_pid mine) U64_MAX).
+Proof.
+  induction ids as [|[X q] t IH]; intros fs f n acc Hh HR Hc; [reflexivity|].
+  cbn [windows_trace] in *. cbn [filter ev_new] in Hc. cbn zeta. rewrite filter_ev_of_cons. cbn [ev_ssid].
+  destruct (N.eqb_spec X A) as [->|Hne].
+  - (* a packet of A *)
+    pose proof (held_in _ _ _ _ Hh) as Hin.
+    assert (En : negb (existsb (N.eqb A) (fkeys fs)) = false).
+    { apply negb_false_iff, existsb_keys, Hin. }
+    rewrite En in Hc. unfold client_validate in *. rewrite (filter_of_retained _ _ Hin) in *.
+    destruct (held_validate_same A f n fs q Hh) as (Hb & Hh').
+    destruct (pw_validate f q U64_MAX) as [f' b] eqn:Ev. cbn [fst snd] in *.
+    destruct (pw_validate_refines _ _ _ _ _ _ HR Ev) as (Hspec & HR' & _).
+    cbn [map ev_ok ev_pid]. rewrite snd_spec_run_cons, <- Hspec, Hb. f_equal.
+    apply (IH _ f' n _ Hh' HR'). exact Hc.
+  - (* a packet of another server session *)
+    destruct (existsb (N.eqb X) (fkeys fs)) eqn:EX; cbn [negb] in Hc.
+    + apply existsb_keys in EX. unfold client_validate in *. rewrite (filter_of_retained _ _ EX) in *.
+      apply (IH _ f n acc); [apply held_validate_other; assumption|exact HR|exact Hc].
+    + assert (HX : ~ In X (fkeys fs)) by (intros H; apply existsb_keys in H; congruence).
+      cbn [length] in Hc. unfold client_validate in *.
+      apply (IH _ f (S n) acc); [|exact HR|lia].
+      apply held_validate_other; [exact Hne|]. apply held_filter_of_new; [exact HX|exact Hh|lia].
+Qed.
+
+(* accepted ids of one window are pairwise distinct (and new) *)
+Lemma spec_accept_fresh acc id limit : spec_accept acc id limit = true -> ~ In id acc.
+Proof.
+  unfold spec_accept. rewrite !andb_true_iff, negb_true_iff. intros [[_ H] _] Hin.
+  assert (existsb (N.eqb id) acc = true) by (apply existsb_exists; exists id; split; [assumption|apply N.eqb_refl]).
+  congruence.
+Qed.
+Lemma spec_verdicts_nodup limit : forall (mine : list cevent) acc,
+  map ev_ok mine = snd (spec_run acc (map ev_pid mine) limit) ->
+  NoDup (map ev_pid (filter ev_ok mine)) /\ forall id, In id (map ev_pid (filter ev_ok mine)) -> ~ In id acc.
+Proof.
+  induction mine as [|e t IH]; intros acc H; cbn [filter map]; [split; [constructor|intros ? []]|].
+  cbn [map] in H. rewrite snd_spec_run_cons in H. injection H as Hb Ht.
+  destruct (IH _ Ht) as (Hnd & Hfresh). rewrite Hb. destruct (spec_accept acc (ev_pid e) limit) eqn:Ea.
+  - cbn [map]. split.
+    + constructor; [|exact Hnd]. intros Hin. apply (Hfresh _ Hin). left. reflexivity.
+    + intros id [<-|Hin]; [apply (spec_accept_fresh _ _ _ Ea)|]. intros Hacc. apply (Hfresh _ Hin). right. exact Hacc.
+  - split; [exact Hnd|exact Hfresh].
+Qed.
+
+(* C11 for the vector of windows: from ANY vector, for EVERY sequence of (server session id, packet id):
+   from the packet that opens the window of A, and as long as fewer than 4 further windows have been opened,
+   the verdicts on A's packets are exactly those of the specification window run on A's ids from scratch *)
+Theorem windows_session_exact fs ids pre A p0 b0 rest post :
+  windows_trace fs ids = pre ++ {| ev_ssid := A; ev_pid := p0; ev_new := true; ev_ok := b0 |} :: rest ++ post ->
+  (length (filter ev_new rest) < N.to_nat MAX_SERVER_SESSIONS)%nat ->
+  let mine := filter (ev_of A) ({| ev_ssid := A; ev_pid := p0; ev_new := true; ev_ok := b0 |} :: rest) in
+  map ev_ok mine = snd (spec_run [] (map ev_pid mine) U64_MAX) /\
+  NoDup (map ev_pid (filter ev_ok mine)).
+Proof.
+  change (N.to_nat MAX_SERVER_SESSIONS) with 4%nat. intros H Hc. cbn zeta.
+  assert (Hmain : map ev_ok (filter (ev_of A) ({| ev_ssid := A; ev_pid := p0; ev_new := true; ev_ok := b0 |} :: rest))
+                  = snd (spec_run [] (map ev_pid (filter (ev_of A) ({| ev_ssid := A; ev_pid := p0; ev_new := true; ev_ok := b0 |} :: rest))) U64_MAX)).
+  2:{ split; [exact Hmain|]. exact (proj1 (spec_verdicts_nodup _ _ _ Hmain)). }
+  destruct (windows_trace_app_inv _ _ _ _ H) as (i1 & i2 & fs1 & -> & _ & H2).
+  destruct i2 as [|[A' q] i2]; [discriminate|]. cbn [windows_trace] in H2. injection H2 as HA Hq Hnew Hok Hrest.
+  subst A' q. apply negb_true_iff in Hnew.
+  assert (HA : ~ In A (fkeys fs1)) by (intros Hin; apply existsb_keys in Hin; congruence).
+  destruct (windows_trace_app_inv _ _ _ _ Hrest) as (i3 & i4 & fs3 & -> & H3 & _).
+  rewrite filter_ev_of_cons. cbn [ev_ssid]. rewrite N.eqb_refl. cbn [map ev_ok ev_pid]. rewrite snd_spec_run_cons.
+  pose proof (held_after_new fs1 A p0 HA) as Hh.
+  destruct (pw_new_verdict p0) as (Hv & HR).
+  assert (Hb0 : b0 = spec_accept [] p0 U64_MAX).
+  { rewrite <- Hok, client_validate_new by exact HA. cbn [snd]. rewrite Hv. unfold spec_accept. cbn [existsb forallb negb].
+    rewrite !andb_true_r. reflexivity. }
+  rewrite <- Hb0. f_equal.
+  assert (Hacc : (if b0 then [p0] else []) = (if p0 <? U64_MAX then [p0] else [])).
+  { rewrite Hb0. unfold spec_accept. cbn [existsb forallb negb]. rewrite !andb_true_r. reflexivity. }
+  rewrite Hacc, <- H3.
+  apply (held_session_run A i3 _ _ 0%nat _ Hh HR). rewrite H3. exact Hc.
 Qed.
 
 Section SsUdpFacts.
@@ -756,14 +1073,7 @@ Section SsUdpFacts.
   Notation Rw := PacketWindowList.R.
   Notation accept := PacketWindow.spec_accept.
 
-  Lemma spec_accept_fresh acc id limit : accept acc id limit = true -> ~ In id acc.
-  Proof.
-    unfold PacketWindow.spec_accept. rewrite !andb_true_iff, negb_true_iff. intros [[_ H] _] Hin.
-    assert (existsb (N.eqb id) acc = true) by (apply existsb_exists; exists id; split; [assumption|apply N.eqb_refl]).
-    congruence.
-  Qed.
-
-  Lemma cstate_eta st : {| cs_sess := cs_sess st; cs_filter := cs_filter st |} = st.
+  Lemma cstate_eta st : {| cs_sess := cs_sess st; cs_filters := cs_filters st |} = st.
   Proof. destruct st; reflexivity. Qed.
   Lemma astate_eta st : set_afilter st (as_filter st) = st.
   Proof. destruct st; reflexivity. Qed.
@@ -773,9 +1083,10 @@ Section SsUdpFacts.
     client_dgram_decode P cx rp now st src =
     match ssu_session_decode P cx now src with
     | Ok (Some (content, a, s)) =>
-      let '(f', ok) := (if rp then pw_validate (cs_filter st) (us_pid s) U64_MAX else (cs_filter st, true)) in
-      if ok then Ok ({| cs_sess := set_ssid (cs_sess st) (us_ssid s); cs_filter := f' |}, Some (content, a))
-      else Ok ({| cs_sess := cs_sess st; cs_filter := f' |}, None)
+      if rp && negb (us_csid s =? us_csid (cs_sess st)) then Ok (st, None) else
+      let '(fs', ok) := (if rp then client_validate (cs_filters st) (us_ssid s) (us_pid s) else (cs_filters st, true)) in
+      if ok then Ok ({| cs_sess := set_ssid (cs_sess st) (us_ssid s); cs_filters := fs' |}, Some (content, a))
+      else Ok ({| cs_sess := cs_sess st; cs_filters := fs' |}, None)
     | Ok None => Ok (st, None)
     | Err e => Err e
     | Panic => Panic
@@ -785,36 +1096,73 @@ Section SsUdpFacts.
     destruct (ssu_session_decode P cx now (x :: t)) as [[[[c a] s]|]|e|]; reflexivity.
   Qed.
 
-  (* the verdict is the specification's (set of accepted ids + window), whatever the arrival order *)
-  Theorem client_dgram_decode_spec cx now st acc src content a s :
-    Rw (cs_filter st) acc ->
+  (* a well-formed, authenticated server datagram that names ANOTHER client session id is not delivered and leaves the
+     state unchanged: no window is consulted, so it cannot use up a packet id of this session *)
+  Theorem client_foreign_session_datagram_dropped cx now st src content a s :
     ssu_session_decode P cx now src = Ok (Some (content, a, s)) ->
-    exists st',
-      client_dgram_decode P cx true now st src
-        = Ok (st', if accept acc (us_pid s) U64_MAX then Some (content, a) else None) /\
-      Rw (cs_filter st') (if accept acc (us_pid s) U64_MAX then us_pid s :: acc else acc) /\
-      (accept acc (us_pid s) U64_MAX = false -> st' = st) /\
-      (accept acc (us_pid s) U64_MAX = true -> cs_sess st' = set_ssid (cs_sess st) (us_ssid s)).
-  Proof.
-    intros HR Hd. rewrite client_dgram_decode_of_session, Hd.
-    destruct (pw_validate (cs_filter st) (us_pid s) U64_MAX) as [f' b] eqn:Hv.
-    destruct (pw_validate_refines _ _ _ _ _ _ HR Hv) as (Hb & HR' & Hsame). rewrite <- Hb.
-    destruct b.
-    - eexists. split; [reflexivity|]. cbn [cs_filter cs_sess]. split; [exact HR'|]. split; [discriminate|reflexivity].
-    - eexists. split; [reflexivity|]. cbn [cs_filter]. split; [exact HR'|]. split; [|discriminate].
-      intros _. rewrite (Hsame eq_refl). apply cstate_eta.
-  Qed.
-
-  Theorem refused_packet_keeps_session_client cx now st acc src content a s :
-    Rw (cs_filter st) acc ->
-    ssu_session_decode P cx now src = Ok (Some (content, a, s)) ->
-    snd (pw_validate (cs_filter st) (us_pid s) U64_MAX) = false ->
+    us_csid s <> us_csid (cs_sess st) ->
     client_dgram_decode P cx true now st src = Ok (st, None).
   Proof.
-    intros HR Hd Hrej. rewrite client_dgram_decode_of_session, Hd.
-    destruct (pw_validate (cs_filter st) (us_pid s) U64_MAX) as [f' b] eqn:Hv. cbn [snd] in Hrej. subst b.
-    destruct (pw_validate_refines _ _ _ _ _ _ HR Hv) as (_ & _ & Hsame).
-    rewrite (Hsame eq_refl). rewrite cstate_eta. reflexivity.
+    intros Hd Hne. rewrite client_dgram_decode_of_session, Hd.
+    destruct (N.eqb_spec (us_csid s) (us_csid (cs_sess st))) as [E|_]; [contradiction|]. reflexivity.
+  Qed.
+
+  (* the datagrams of this client session: one step in terms of the vector of windows *)
+  Lemma client_dgram_decode_own cx now st src content a s :
+    ssu_session_decode P cx now src = Ok (Some (content, a, s)) ->
+    us_csid s = us_csid (cs_sess st) ->
+    client_dgram_decode P cx true now st src =
+    if snd (client_validate (cs_filters st) (us_ssid s) (us_pid s))
+    then Ok ({| cs_sess := set_ssid (cs_sess st) (us_ssid s);
+                cs_filters := fst (client_validate (cs_filters st) (us_ssid s) (us_pid s)) |}, Some (content, a))
+    else Ok ({| cs_sess := cs_sess st; cs_filters := fst (client_validate (cs_filters st) (us_ssid s) (us_pid s)) |}, None).
+  Proof.
+    intros Hd E. rewrite client_dgram_decode_of_session, Hd, E, N.eqb_refl. cbn [andb negb].
+    destruct (client_validate (cs_filters st) (us_ssid s) (us_pid s)) as [fs' b]. reflexivity.
+  Qed.
+
+  (* the verdict is the specification's (set of accepted ids + window) for the window of THAT server session,
+     whatever the arrival order and whatever the other server sessions' windows hold *)
+  Theorem client_dgram_decode_spec cx now st n f acc src content a s :
+    held (us_ssid s) f n (cs_filters st) -> Rw f acc ->
+    ssu_session_decode P cx now src = Ok (Some (content, a, s)) ->
+    us_csid s = us_csid (cs_sess st) ->
+    exists st' f',
+      client_dgram_decode P cx true now st src
+        = Ok (st', if accept acc (us_pid s) U64_MAX then Some (content, a) else None) /\
+      held (us_ssid s) f' n (cs_filters st') /\
+      Rw f' (if accept acc (us_pid s) U64_MAX then us_pid s :: acc else acc) /\
+      (accept acc (us_pid s) U64_MAX = true -> cs_sess st' = set_ssid (cs_sess st) (us_ssid s)) /\
+      (accept acc (us_pid s) U64_MAX = false -> cs_sess st' = cs_sess st /\ f' = f).
+  Proof.
+    intros Hh HR Hd E. rewrite (client_dgram_decode_own cx now st src content a s Hd E).
+    unfold client_validate. rewrite (filter_of_retained _ _ (held_in _ _ _ _ Hh)).
+    destruct (held_validate_same _ _ _ _ (us_pid s) Hh) as (Hb & Hh').
+    destruct (pw_validate f (us_pid s) U64_MAX) as [f' b] eqn:Hv. cbn [fst snd] in *.
+    destruct (pw_validate_refines _ _ _ _ _ _ HR Hv) as (Hspec & HR' & Hsame). rewrite <- Hspec, Hb.
+    destruct b; eexists; exists f'; (split; [reflexivity|]); cbn [cs_filters cs_sess]; (split; [exact Hh'|]); (split; [exact HR'|]); split;
+      try discriminate; try reflexivity.
+    intros _. split; [reflexivity|]. apply Hsame. reflexivity.
+  Qed.
+
+  (* a refused (duplicate / stale / over-limit) packet id yields no item and keeps the session: the state differs at most by
+     filter_of having opened an (empty) window for a server session seen for the first time -- which, by
+     refused_unretained_over_limit, needs a packet id >= 2^64 - 1; for a server session whose window is held the state is
+     IDENTICAL *)
+  Theorem refused_packet_keeps_session_client cx now st src content a s :
+    windows_ok (cs_filters st) ->
+    ssu_session_decode P cx now src = Ok (Some (content, a, s)) ->
+    us_csid s = us_csid (cs_sess st) ->
+    snd (client_validate (cs_filters st) (us_ssid s) (us_pid s)) = false ->
+    client_dgram_decode P cx true now st src
+      = Ok ({| cs_sess := cs_sess st; cs_filters := filter_of (cs_filters st) (us_ssid s) |}, None) /\
+    (In (us_ssid s) (fkeys (cs_filters st)) -> client_dgram_decode P cx true now st src = Ok (st, None)) /\
+    (~ In (us_ssid s) (fkeys (cs_filters st)) -> U64_MAX <= us_pid s).
+  Proof.
+    intros Hok Hd E Hrej. rewrite (client_dgram_decode_own cx now st src content a s Hd E), Hrej.
+    rewrite (client_validate_refused _ _ _ Hok Hrej). split; [reflexivity|]. split.
+    - intros Hin. rewrite (filter_of_retained _ _ Hin), cstate_eta. reflexivity.
+    - intros Hni. exact (refused_unretained_over_limit _ _ _ Hni Hrej).
   Qed.
 
   (* UdpFramed: a decode error is reported and the codec (unchanged) goes on with the next datagram *)
@@ -830,69 +1178,162 @@ Section SsUdpFacts.
       end
     end.
 
-  (* the following packets are judged as if the refused one had not arrived *)
-  Corollary refused_packet_invisible_client cx now st acc src content a s rest :
-    Rw (cs_filter st) acc ->
+  (* the following packets are judged as if the refused one had not arrived (server session whose window is held);
+     in general: as if filter_of alone had run *)
+  Corollary refused_packet_invisible_client cx now st src content a s rest :
+    windows_ok (cs_filters st) ->
     ssu_session_decode P cx now src = Ok (Some (content, a, s)) ->
-    snd (pw_validate (cs_filter st) (us_pid s) U64_MAX) = false ->
+    us_csid s = us_csid (cs_sess st) ->
+    snd (client_validate (cs_filters st) (us_ssid s) (us_pid s)) = false ->
+    (In (us_ssid s) (fkeys (cs_filters st)) ->
+     client_dgram_run cx true now st (src :: rest)
+     = (fst (client_dgram_run cx true now st rest), Ok None :: snd (client_dgram_run cx true now st rest))) /\
+    (let st1 := {| cs_sess := cs_sess st; cs_filters := filter_of (cs_filters st) (us_ssid s) |} in
+     client_dgram_run cx true now st (src :: rest)
+     = (fst (client_dgram_run cx true now st1 rest), Ok None :: snd (client_dgram_run cx true now st1 rest))).
+  Proof.
+    intros Hok Hd E Hrej.
+    destruct (refused_packet_keeps_session_client cx now st src content a s Hok Hd E Hrej) as (Hg & Hin & _). split.
+    - intros H. cbn [client_dgram_run]. rewrite (Hin H). destruct (client_dgram_run cx true now st rest). reflexivity.
+    - cbn zeta. cbn [client_dgram_run]. rewrite Hg. destruct (client_dgram_run cx true now _ rest). reflexivity.
+  Qed.
+  Corollary foreign_session_datagram_invisible_client cx now st src content a s rest :
+    ssu_session_decode P cx now src = Ok (Some (content, a, s)) ->
+    us_csid s <> us_csid (cs_sess st) ->
     client_dgram_run cx true now st (src :: rest)
     = (fst (client_dgram_run cx true now st rest), Ok None :: snd (client_dgram_run cx true now st rest)).
   Proof.
-    intros HR Hd Hrej. cbn [client_dgram_run].
-    rewrite (refused_packet_keeps_session_client cx now st acc src content a s HR Hd Hrej).
+    intros Hd Hne. cbn [client_dgram_run]. rewrite (client_foreign_session_datagram_dropped cx now st src content a s Hd Hne).
     destruct (client_dgram_run cx true now st rest). reflexivity.
   Qed.
 
-  (* the invariant travels along every run *)
-  Lemma client_dgram_decode_R cx now st acc src st' o :
-    Rw (cs_filter st) acc -> client_dgram_decode P cx true now st src = Ok (st', o) -> exists acc', Rw (cs_filter st') acc'.
+  (* the repaired behaviour: the FIRST packet (any id below the limit) of a server session whose window is not held is
+     accepted -- from ANY state, i.e. whatever was accepted in other server sessions; its window is appended (the oldest
+     one evicted when MAX_SERVER_SESSIONS are held) and holds exactly that id *)
+  Theorem client_new_server_session_accepted cx now st src content a s :
+    ssu_session_decode P cx now src = Ok (Some (content, a, s)) ->
+    us_csid s = us_csid (cs_sess st) ->
+    ~ In (us_ssid s) (fkeys (cs_filters st)) ->
+    us_pid s < U64_MAX ->
+    exists f',
+      client_dgram_decode P cx true now st src
+      = Ok ({| cs_sess := set_ssid (cs_sess st) (us_ssid s);
+               cs_filters := (if N.of_nat (length (cs_filters st)) =? MAX_SERVER_SESSIONS then tl (cs_filters st) else cs_filters st)
+                             ++ [(us_ssid s, f')] |}, Some (content, a)) /\
+      Rw f' [us_pid s].
   Proof.
-    intros HR. rewrite client_dgram_decode_of_session.
-    destruct (ssu_session_decode P cx now src) as [[[[c a] s]|]|e|] eqn:Hd; try discriminate.
-    - destruct (pw_validate (cs_filter st) (us_pid s) U64_MAX) as [f' b] eqn:Hv.
-      destruct (pw_validate_refines _ _ _ _ _ _ HR Hv) as (_ & HR' & _).
-      destruct b; intros [= <- <-]; cbn [cs_filter]; eauto.
-    - intros [= <- <-]. eauto.
+    intros Hd E Hni Hlt. rewrite (client_dgram_decode_own cx now st src content a s Hd E).
+    rewrite (client_validate_new _ _ (us_pid s) Hni). cbn [fst snd].
+    destruct (pw_new_verdict (us_pid s)) as (Hv & HR). apply N.ltb_lt in Hlt. rewrite Hlt in *. rewrite Hv.
+    eexists. split; [reflexivity|exact HR].
   Qed.
 
-  (* the packet ids of the datagrams that were delivered, in order (ghost observation of a run) *)
-  Fixpoint client_delivered_ids (cx : uctx) (now : N) (st : cstate) (srcs : list bytes) : list N :=
+  (* ---- the run of a client session seen as a trace (ghost observation) ----
+     one event per authenticated datagram addressed to this client session: the server session id and packet id it
+     carries, whether it opened a window (its server session id was not held: first seen, or evicted since) and
+     whether it was delivered *)
+  Fixpoint client_trace (cx : uctx) (now : N) (st : cstate) (srcs : list bytes) : list cevent :=
     match srcs with
     | [] => []
     | src :: t =>
       match client_dgram_decode P cx true now st src, ssu_session_decode P cx now src with
-      | Ok (st', Some _), Ok (Some (_, _, s)) => us_pid s :: client_delivered_ids cx now st' t
-      | Ok (st', _), _ => client_delivered_ids cx now st' t
-      | _, _ => client_delivered_ids cx now st t
+      | Ok (st', o), Ok (Some (_, _, s)) =>
+        if us_csid s =? us_csid (cs_sess st) then
+          {| ev_ssid := us_ssid s; ev_pid := us_pid s;
+             ev_new := negb (existsb (N.eqb (us_ssid s)) (fkeys (cs_filters st)));
+             ev_ok := match o with Some _ => true | None => false end |} :: client_trace cx now st' t
+        else client_trace cx now st' t
+      | Ok (st', _), _ => client_trace cx now st' t
+      | _, _ => client_trace cx now st t
+      end
+    end.
+  (* the (server session id, packet id) of those datagrams *)
+  Fixpoint client_auth_ids (cx : uctx) (now csid : N) (srcs : list bytes) : list (N * N) :=
+    match srcs with
+    | [] => []
+    | src :: t =>
+      match ssu_session_decode P cx now src with
+      | Ok (Some (_, _, s)) => if us_csid s =? csid then (us_ssid s, us_pid s) :: client_auth_ids cx now csid t
+                               else client_auth_ids cx now csid t
+      | _ => client_auth_ids cx now csid t
       end
     end.
 
-  Lemma client_delivered_ids_fresh cx now : forall srcs st acc, Rw (cs_filter st) acc ->
-    NoDup (client_delivered_ids cx now st srcs) /\
-    (forall id, In id (client_delivered_ids cx now st srcs) -> ~ In id acc /\ id < U64_MAX).
+  Lemma client_trace_windows cx now : forall srcs st,
+    client_trace cx now st srcs = windows_trace (cs_filters st) (client_auth_ids cx now (us_csid (cs_sess st)) srcs).
   Proof.
-    induction srcs as [|src t IH]; intros st acc HR; cbn [client_delivered_ids].
-    { split; [constructor|intros id []]. }
+    induction srcs as [|src t IH]; intros st; cbn [client_trace client_auth_ids]; [reflexivity|].
     destruct (ssu_session_decode P cx now src) as [[[[c a] s]|]|e|] eqn:Hd.
-    - destruct (client_dgram_decode_spec cx now st acc src c a s HR Hd) as (st' & Hdec & HR' & _ & _).
-      rewrite Hdec. destruct (accept acc (us_pid s) U64_MAX) eqn:Eok.
-      + destruct (IH st' _ HR') as (Hnd & Hfresh). split.
-        * constructor; [|exact Hnd]. intros Hin. apply Hfresh in Hin. apply (proj1 Hin). left. reflexivity.
-        * intros id [<-|Hin].
-          -- split; [apply (spec_accept_fresh _ _ _ Eok)|].
-             unfold PacketWindow.spec_accept in Eok. rewrite !andb_true_iff in Eok. destruct Eok as [[H _] _].
-             apply N.ltb_lt in H. exact H.
-          -- destruct (Hfresh id Hin) as [H1 H2]. split; [|exact H2]. intros Hacc. apply H1. right. exact Hacc.
-      + apply IH. exact HR'.
-    - rewrite client_dgram_decode_of_session, Hd. apply IH. exact HR.
-    - rewrite client_dgram_decode_of_session, Hd. apply IH. exact HR.
-    - rewrite client_dgram_decode_of_session, Hd. apply IH. exact HR.
+    - destruct (N.eqb_spec (us_csid s) (us_csid (cs_sess st))) as [E|Hne].
+      + rewrite (client_dgram_decode_own cx now st src c a s Hd E). cbn [windows_trace].
+        destruct (snd (client_validate (cs_filters st) (us_ssid s) (us_pid s))); rewrite IH; reflexivity.
+      + rewrite (client_foreign_session_datagram_dropped cx now st src c a s Hd Hne). apply IH.
+    - rewrite client_dgram_decode_of_session, Hd. apply IH.
+    - rewrite client_dgram_decode_of_session, Hd. apply IH.
+    - rewrite client_dgram_decode_of_session, Hd. apply IH.
   Qed.
 
-  (* each UDP packet id is accepted at most once, in any arrival order, for every input sequence *)
-  Theorem client_packet_id_at_most_once cx now csid srcs :
-    NoDup (client_delivered_ids cx now (cstate_new csid) srcs).
-  Proof. apply (client_delivered_ids_fresh cx now srcs (cstate_new csid) []). apply R_init. Qed.
+  (* "opened a window" is a function of the server session ids seen alone: a FIFO of MAX_SERVER_SESSIONS entries *)
+  Theorem client_trace_new_is_fifo cx now st srcs :
+    map ev_new (client_trace cx now st srcs)
+    = fifo_news (fkeys (cs_filters st)) (map ev_ssid (client_trace cx now st srcs)).
+  Proof.
+    rewrite client_trace_windows.
+    destruct (windows_trace_new_is_fifo (client_auth_ids cx now (us_csid (cs_sess st)) srcs) (cs_filters st)) as (H1 & H2 & _).
+    rewrite H1, H2. reflexivity.
+  Qed.
+
+  (* C11 on the client, full strength: from ANY state and for EVERY sequence of datagrams (any arrival order, any mix of
+     server sessions, garbage, foreign and empty datagrams in between): take the datagram that opens the window of
+     server session A and the events [rest] that follow it; as long as fewer than MAX_SERVER_SESSIONS = 4 further windows are
+     opened in [rest] (i.e. fewer than 4 OTHER server session ids are first seen -- or seen again after their own
+     eviction -- since A's window was created), the packets of A are delivered exactly as the specification window
+     (PacketWindow.spec_run: id < 2^64-1, not accepted before IN SERVER SESSION A, not more than 8128 behind the highest
+     id accepted IN A) decides on A's ids alone: in particular every packet id of A is delivered at most once.
+     The bound is tight: client_window_eviction_witness (with a 4th new window A's is forgotten). *)
+  Theorem client_packet_id_at_most_once cx now st srcs pre A p0 b0 rest post :
+    client_trace cx now st srcs = pre ++ {| ev_ssid := A; ev_pid := p0; ev_new := true; ev_ok := b0 |} :: rest ++ post ->
+    (length (filter ev_new rest) < N.to_nat MAX_SERVER_SESSIONS)%nat ->
+    let mine := filter (ev_of A) ({| ev_ssid := A; ev_pid := p0; ev_new := true; ev_ok := b0 |} :: rest) in
+    map ev_ok mine = snd (spec_run [] (map ev_pid mine) U64_MAX) /\
+    NoDup (map ev_pid (filter ev_ok mine)).
+  Proof. rewrite client_trace_windows. apply windows_session_exact. Qed.
+
+  (* the (server session id, packet id) of the datagrams that were delivered, in order *)
+  Definition client_delivered_ids (cx : uctx) (now : N) (st : cstate) (srcs : list bytes) : list (N * N) :=
+    map (fun e => (ev_ssid e, ev_pid e)) (filter ev_ok (client_trace cx now st srcs)).
+
+  (* ---- regression reference: the client BEFORE the repairs 5185ac1 / 642ebdf: ONE window for the client session,
+     no comparison of the client session id (never extracted; only the witnesses below use it) ---- *)
+  Record cstate_v0 := { cs0_sess : usess; cs0_filter : pw }.
+  Definition cstate_v0_new (csid : N) : cstate_v0 :=
+    {| cs0_sess := {| us_csid := csid; us_ssid := 0; us_pid := 0; us_user := None |}; cs0_filter := pw_new |}.
+  Definition client_dgram_decode_v0 (cx : uctx) (replay_protected : bool) (now : N) (st : cstate_v0) (src : bytes)
+    : res (cstate_v0 * option (bytes * addr)) :=
+    match src with
+    | [] => Ok (st, None)
+    | _ =>
+      let* r := ssu_session_decode P cx now src in
+      match r with
+      | None => Ok (st, None)
+      | Some (content, a, s) =>
+        let '(f', ok) := (if replay_protected then pw_validate (cs0_filter st) (us_pid s) U64_MAX
+                          else (cs0_filter st, true)) in
+        if ok then Ok ({| cs0_sess := set_ssid (cs0_sess st) (us_ssid s); cs0_filter := f' |}, Some (content, a))
+        else Ok ({| cs0_sess := cs0_sess st; cs0_filter := f' |}, None)
+      end
+    end.
+  Fixpoint client_dgram_run_v0 (cx : uctx) (rp : bool) (now : N) (st : cstate_v0) (srcs : list bytes)
+    : cstate_v0 * list (res (option (bytes * addr))) :=
+    match srcs with
+    | [] => (st, [])
+    | src :: t =>
+      match client_dgram_decode_v0 cx rp now st src with
+      | Ok (st', o) => let '(st2, l) := client_dgram_run_v0 cx rp now st' t in (st2, Ok o :: l)
+      | Err e => let '(st2, l) := client_dgram_run_v0 cx rp now st t in (st2, Err e :: l)
+      | Panic => let '(st2, l) := client_dgram_run_v0 cx rp now st t in (st2, Panic :: l)
+      end
+    end.
 
   (* ---------------- server: one turn of the association task ---------------- *)
   Theorem unresolved_packet_keeps_session st content peer s :
@@ -1014,13 +1455,13 @@ Section SsUdpFacts.
     (us_pid (cs_sess st) < U64_MAX ->
        exists st', client_dgram_encode P cx now rnd pad st a content = (st', ssu_encode P cx now rnd pad (cs_sess st') a content) /\
                    us_pid (cs_sess st') = us_pid (cs_sess st) + 1 /\ us_pid (cs_sess st') <= U64_MAX /\
-                   us_csid (cs_sess st') = us_csid (cs_sess st) /\ cs_filter st' = cs_filter st).
+                   us_csid (cs_sess st') = us_csid (cs_sess st) /\ cs_filters st' = cs_filters st).
   Proof.
     intros Hle. unfold client_dgram_encode. split.
     - intros ->. rewrite N.eqb_refl. reflexivity.
     - intros Hlt. destruct (N.eqb_spec (us_pid (cs_sess st)) U64_MAX); [lia|].
-      exists {| cs_sess := set_pid (cs_sess st) ((us_pid (cs_sess st) + 1) mod 2 ^ 64); cs_filter := cs_filter st |}.
-      split; [reflexivity|]. cbn [cs_sess cs_filter set_pid us_pid us_csid].
+      exists {| cs_sess := set_pid (cs_sess st) ((us_pid (cs_sess st) + 1) mod 2 ^ 64); cs_filters := cs_filters st |}.
+      split; [reflexivity|]. cbn [cs_sess cs_filters set_pid us_pid us_csid].
       unfold U64_MAX in *. rewrite N.mod_small by lia. repeat split; lia.
   Qed.
 
@@ -1161,16 +1602,84 @@ Module ToyUdp.
   (* session level: the server answers with packet ids 1, 2, 1 (a replay), 3 *)
   Definition srv : uctx := {| uc_kind := K22_A128; uc_mode := Server; uc_key := ukey; uc_ikeys := []; uc_users := None |}.
   Definition cli : uctx := {| uc_kind := K22_A128; uc_mode := Client; uc_key := ukey; uc_ikeys := []; uc_users := None |}.
-  Definition reply (pid : N) (payload : bytes) : bytes :=
-    match ssu_encode toyP srv 1000 [] [] {| us_csid := 77; us_ssid := 900; us_pid := pid; us_user := None |} tgt payload with
+  Definition reply_for (csid ssid pid : N) (payload : bytes) : bytes :=
+    match ssu_encode toyP srv 1000 [] [] {| us_csid := csid; us_ssid := ssid; us_pid := pid; us_user := None |} tgt payload with
     | Ok w => w | _ => [] end.
+  Definition reply_of (ssid pid : N) (payload : bytes) : bytes := reply_for 77 ssid pid payload.
+  Definition reply (pid : N) (payload : bytes) : bytes := reply_of 900 pid payload.
   Example ex_replay_dropped :
     snd (client_dgram_run toyP cli true 1000 (cstate_new 77) [reply 1 [11]; reply 2 [22]; reply 1 [11]; reply 3 [33]])
     = [Ok (Some ([11], tgt)); Ok (Some ([22], tgt)); Ok None; Ok (Some ([33], tgt))].
   Proof. vm_compute. reflexivity. Qed.
   Example ex_replay_ids :
-    client_delivered_ids toyP cli 1000 (cstate_new 77) [reply 1 [11]; reply 2 [22]; reply 1 [11]; reply 3 [33]] = [1; 2; 3].
+    client_delivered_ids toyP cli 1000 (cstate_new 77) [reply 1 [11]; reply 2 [22]; reply 1 [11]; reply 3 [33]]
+    = [(900, 1); (900, 2); (900, 3)].
   Proof. vm_compute. reflexivity. Qed.
+  (* the trace of a run with two server sessions, a duplicate in each, garbage and a foreign datagram in between *)
+  Example ex_trace :
+    client_trace toyP cli 1000 (cstate_new 77)
+      [reply_of 900 1 [11]; [1; 2; 3]; reply_of 901 1 [12]; reply_for 78 900 2 [13]; reply_of 900 1 [11]; reply_of 901 1 [12]; reply_of 900 2 [14]]
+    = [{| ev_ssid := 900; ev_pid := 1; ev_new := true; ev_ok := true |};
+       {| ev_ssid := 901; ev_pid := 1; ev_new := true; ev_ok := true |};
+       {| ev_ssid := 900; ev_pid := 1; ev_new := false; ev_ok := false |};
+       {| ev_ssid := 901; ev_pid := 1; ev_new := false; ev_ok := false |};
+       {| ev_ssid := 900; ev_pid := 2; ev_new := false; ev_ok := true |}].
+  Proof. vm_compute. reflexivity. Qed.
+
+  (* regression sensitivity (repair 5185ac1): ids 1..5 are accepted in server session 900, then the server starts session 901
+     and numbers from 1 again.  The single-window client refuses 901:1 as a duplicate; the repaired client delivers it. *)
+  Definition new_session_script : list bytes :=
+    [reply_of 900 1 [1]; reply_of 900 2 [2]; reply_of 900 3 [3]; reply_of 900 4 [4]; reply_of 900 5 [5]; reply_of 901 1 [6]].
+  Theorem single_window_drops_new_session_witness :
+    snd (client_dgram_run_v0 toyP cli true 1000 (cstate_v0_new 77) new_session_script)
+    = [Ok (Some ([1], tgt)); Ok (Some ([2], tgt)); Ok (Some ([3], tgt)); Ok (Some ([4], tgt)); Ok (Some ([5], tgt)); Ok None] /\
+    snd (client_dgram_run toyP cli true 1000 (cstate_new 77) new_session_script)
+    = [Ok (Some ([1], tgt)); Ok (Some ([2], tgt)); Ok (Some ([3], tgt)); Ok (Some ([4], tgt)); Ok (Some ([5], tgt)); Ok (Some ([6], tgt))].
+  Proof. split; vm_compute; reflexivity. Qed.
+  (* ... and late packets of the old server session are still judged by the old session's window *)
+  Example ex_old_session_late :
+    snd (client_dgram_run toyP cli true 1000 (cstate_new 77)
+           (new_session_script ++ [reply_of 900 5 [5]; reply_of 900 6 [7]; reply_of 901 1 [6]; reply_of 901 2 [8]]))
+    = [Ok (Some ([1], tgt)); Ok (Some ([2], tgt)); Ok (Some ([3], tgt)); Ok (Some ([4], tgt)); Ok (Some ([5], tgt)); Ok (Some ([6], tgt));
+       Ok None; Ok (Some ([7], tgt)); Ok None; Ok (Some ([8], tgt))].
+  Proof. vm_compute. reflexivity. Qed.
+
+  (* a stated limit of the design: MAX_SERVER_SESSIONS = 4 windows are kept.  With four server sessions a replay of the first
+     one's packet is refused; once a FIFTH distinct server session has been seen the first one's window is forgotten and its
+     packet id 1 is delivered again.  (Such a replay additionally needs a time stamp within 30 s of the client's clock --
+     ssu_decode checks it before the window is consulted: udp_parse / EBadTime, see ex_evicted_replay_stale -- so the
+     exposure is a 30 s old datagram of a server session that four newer server sessions have displaced.) *)
+  Theorem client_window_eviction_witness :
+    snd (client_dgram_run toyP cli true 1000 (cstate_new 77)
+           [reply_of 901 1 [1]; reply_of 902 1 [2]; reply_of 903 1 [3]; reply_of 904 1 [4]; reply_of 901 1 [1]])
+    = [Ok (Some ([1], tgt)); Ok (Some ([2], tgt)); Ok (Some ([3], tgt)); Ok (Some ([4], tgt)); Ok None] /\
+    snd (client_dgram_run toyP cli true 1000 (cstate_new 77)
+           [reply_of 901 1 [1]; reply_of 902 1 [2]; reply_of 903 1 [3]; reply_of 904 1 [4]; reply_of 905 1 [5]; reply_of 901 1 [1]])
+    = [Ok (Some ([1], tgt)); Ok (Some ([2], tgt)); Ok (Some ([3], tgt)); Ok (Some ([4], tgt)); Ok (Some ([5], tgt)); Ok (Some ([1], tgt))] /\
+    map ev_new (client_trace toyP cli 1000 (cstate_new 77)
+           [reply_of 901 1 [1]; reply_of 902 1 [2]; reply_of 903 1 [3]; reply_of 904 1 [4]; reply_of 905 1 [5]; reply_of 901 1 [1]])
+    = [true; true; true; true; true; true].
+  Proof. repeat split; vm_compute; reflexivity. Qed.
+  Example ex_evicted_replay_stale :
+    snd (client_dgram_run toyP cli true 1031 (cstate_new 77) [reply_of 901 1 [1]]) = [Err EBadTime].
+  Proof. vm_compute. reflexivity. Qed.
+  (* the at-most-once theorem applies to the first run (three further windows opened after 901's) *)
+  Example ex_at_most_once_applies :
+    let tr := client_trace toyP cli 1000 (cstate_new 77)
+                [reply_of 901 1 [1]; reply_of 902 1 [2]; reply_of 903 1 [3]; reply_of 904 1 [4]; reply_of 901 1 [1]; reply_of 901 2 [9]] in
+    map ev_ok (filter (ev_of 901) tr) = [true; false; true] /\
+    map ev_ok (filter (ev_of 901) tr) = snd (spec_run [] (map ev_pid (filter (ev_of 901) tr)) U64_MAX).
+  Proof. split; vm_compute; reflexivity. Qed.
+
+  (* regression sensitivity (repair 642ebdf): a well-formed server datagram for client session 78 reaches the codec of client
+     session 77.  The old client delivers it and its packet id 2 is used up: the genuine packet 2 is then dropped.  The
+     repaired client drops the foreign datagram and delivers its own. *)
+  Theorem foreign_session_datagram_witness :
+    snd (client_dgram_run_v0 toyP cli true 1000 (cstate_v0_new 77) [reply 1 [11]; reply_for 78 900 2 [99]; reply 2 [22]])
+    = [Ok (Some ([11], tgt)); Ok (Some ([99], tgt)); Ok None] /\
+    snd (client_dgram_run toyP cli true 1000 (cstate_new 77) [reply 1 [11]; reply_for 78 900 2 [99]; reply 2 [22]])
+    = [Ok (Some ([11], tgt)); Ok None; Ok (Some ([22], tgt))].
+  Proof. split; vm_compute; reflexivity. Qed.
   (* the association task: a replayed client packet is dropped, the task goes on and forwards the next one *)
   Example ex_server_assoc :
     let m pid := EvClient [pid] tgt {| us_csid := 77; us_ssid := 0; us_pid := pid; us_user := None |} (Some (AV4 [1; 2; 3; 4] 53)) in
@@ -1181,7 +1690,7 @@ Module ToyUdp.
   Proof. vm_compute. reflexivity. Qed.
   (* exhaustion: at packet id 2^64 - 1 the client refuses to encode and keeps its state *)
   Example ex_exhausted :
-    let st := {| cs_sess := {| us_csid := 77; us_ssid := 0; us_pid := U64_MAX; us_user := None |}; cs_filter := pw_new |} in
+    let st := {| cs_sess := {| us_csid := 77; us_ssid := 0; us_pid := U64_MAX; us_user := None |}; cs_filters := [] |} in
     client_dgram_encode toyP cli 1000 [] [] st tgt [1] = (st, Err EOther).
   Proof. reflexivity. Qed.
 End ToyUdp.
@@ -1203,6 +1712,14 @@ Print Assumptions server_aes_packet_nonce.
 Print Assumptions refused_packet_keeps_session_client.
 Print Assumptions refused_packet_invisible_client.
 Print Assumptions client_packet_id_at_most_once.
+Print Assumptions client_new_server_session_accepted.
+Print Assumptions client_foreign_session_datagram_dropped.
+Print Assumptions foreign_session_datagram_invisible_client.
+Print Assumptions client_trace_new_is_fifo.
+Print Assumptions client_dgram_decode_spec.
+Print Assumptions ToyUdp.single_window_drops_new_session_witness.
+Print Assumptions ToyUdp.client_window_eviction_witness.
+Print Assumptions ToyUdp.foreign_session_datagram_witness.
 Print Assumptions refused_packet_keeps_session_server.
 Print Assumptions refused_packet_invisible_server.
 Print Assumptions unresolved_packet_invisible_server.
